@@ -469,6 +469,11 @@ def check_C15(ctx):
                 'specification; non-trivial = text has a line starting with //; distinct by text')
     gs = grammar_batch(ctx, ctx.n(60, 1500))
     srcs = [s for _, s in corpus_sources()] + [s for _, s in gs]
+    # grammars whose first emitted items carry long multi-byte attributes: some character straddles every size boundary of the output
+    for k in (60, 150, 400, 1200):
+        for fill in ('é', '表', '\U0001F600'):
+            doc = '#[doc = "%s"]' % (fill * k)
+            srcs.append('start A\n%s\nstruct A($X)\n%s\nterminal T { $X: () }\n' % (doc, doc))
     r, m = run_gen_both(ctx, srcs)
     texts = []
     for s, x, y in zip(srcs, r, m):
@@ -493,6 +498,18 @@ def check_C15(ctx):
     for _ in range(ctx.n(400, 20000)):
         texts.append(''.join(ctx.rng.choice(pieces) for _ in range(ctx.rng.randint(0, 8))))
     texts += ['// @sha256 // @sha256 abc', '// @sha256 abc\r\n', '// a\r\n// @sha256 x\r', 'x\n// @sha256 y', '', '// @sha256 ']
+    # headers whose hash line sits near a size boundary, after comment lines of ASCII or multi-byte text
+    for bound in (255, 256, 512, 1024, 2048, 4096, 8192, 65536):
+        for _ in range(ctx.n(2, 8)):
+            fill = ctx.rng.choice(['x', 'é', '表', '\U0001F600'])
+            lines, total = [], 0
+            target = bound + ctx.rng.randint(-40, 40)
+            while total < target:
+                k = ctx.rng.randint(1, 60)
+                line = '// ' + fill * k
+                lines.append(line)
+                total += len(line.encode('utf-8')) + 1
+            texts.append('\n'.join(lines) + '\n// @sha256 ' + '0123456789abcdef' * 4 + '\n\nfn main() {}\n')
     r = vlib.run_rust('hash', hex_lines(texts))
     m = vlib.run_model('hash', [vlib.cps(t) for t in texts]) if ctx.model_ok else [None] * len(texts)
     for t, x, y in zip(texts, r, m):
@@ -605,13 +622,27 @@ def check_C12(ctx):
     attrs = ['#[derive(Debug)]', '#[derive(Clone, Debug, PartialEq)]', '#[allow(unused)]', '#[doc = "é€\U0001F600"]', '#[doc = "a [b] {c} (d)"]',
              '#[cfg_attr(all(), allow(dead_code))]', '#[x(y[z{w}])]', '#[doc="  spaced   "]', '#[€]', '#[a]', '#[doc = "pub struct Fake;"]',
              '#[doc = "// not a comment"]', '#[doc = "\t tab"]', '#[ß(ü)]']
+    def tricky_attr():
+        # balanced by construction: bracket pairs of the three kinds, nested, with tricky code points (same low byte as a
+        # bracket, quote, `#`, newline; UTF-8 length boundaries) between them
+        def body(d):
+            out = gen.tricky_text(ctx.rng, 0, 6)
+            for _ in range(ctx.rng.randint(0, 2 if d else 3)):
+                o, c = ctx.rng.choice(['()', '[]', '{}'])
+                out += o + (body(d - 1) if d else gen.tricky_text(ctx.rng, 0, 4)) + c + gen.tricky_text(ctx.rng, 0, 4)
+            return out
+        return '#[' + ctx.rng.choice(['doc', 'x', 'cfg_attr', 'é']) + body(3) + ']'
+
+    def pick_attr():
+        return tricky_attr() if ctx.rng.random() < 0.35 else ctx.rng.choice(attrs)
+
     cases = [s for _, s in corpus_sources() if '#[' in s]
     meta = [None] * len(cases)
     for _ in range(ctx.n(150, 6000)):
         g = gen.gen_grammar(ctx.rng, max_nts=4)
         for nt in g.nts:
-            nt['attrs'] = [ctx.rng.choice(attrs) for _ in range(ctx.rng.choice([0, 0, 1, 1, 2, 3, 4]))]
-        g.tenum_attrs = [ctx.rng.choice(attrs) for _ in range(ctx.rng.choice([0, 1, 2, 3]))]
+            nt['attrs'] = [pick_attr() for _ in range(ctx.rng.choice([0, 0, 1, 1, 2, 3, 4]))]
+        g.tenum_attrs = [pick_attr() for _ in range(ctx.rng.choice([0, 1, 2, 3]))]
         cases.append(gen.render(ctx.rng, g, ctx.rng.choice(['plain', 'random'])))
         meta.append(g)
     r, m = run_gen_both(ctx, cases)
@@ -623,6 +654,10 @@ def check_C12(ctx):
             if bad:
                 res.failures.append(dict(kind='attributes-not-verbatim', src=s, impl=short(bad), expected='attributes verbatim before the matching type'))
                 continue
+        if g is not None and x.startswith('Err(Lex('):
+            # every attribute here is single-line and balanced, and nothing else in a generated file is a lexical error
+            res.failures.append(dict(kind='balanced-attribute-rejected', src=s, impl=short(x), expected='no lexical error: all attributes are single-line and balanced'))
+            continue
         if y is not None and x != y:
             res.disagreements.append(disagreement('generate', s, x, y))
     return res
@@ -638,8 +673,10 @@ def check_C13(ctx):
     def ty(depth):
         r = ctx.rng.random()
         if depth <= 0 or r < 0.3:
-            return ctx.rng.choice(['()', 'u32', 'a::B', 'crate::x::Y', 'Zz', 'String', 'std::string::String'])
-        path = '::'.join(ctx.rng.choice(['a', 'B', 'c_d', 'Vec', 'Option', 'std']) for _ in range(ctx.rng.randint(1, 3)))
+            return ctx.rng.choice(['()', 'u32', 'a::B', 'crate::x::Y', 'Zz', 'String', 'std::string::String', 'crate::token::type_::Keyword',
+                                   'a_::b_::C_', '_a::_b', 'x1::y2::Z3', 'super::super::m_::T'])
+        path = '::'.join(ctx.rng.choice(['a', 'B', 'c_d', 'Vec', 'Option', 'std', 'type_', 'enum_', '_x', 'A1', 'r_2_', 'crate', 'super', 'x__'])
+                         for _ in range(ctx.rng.randint(1, 4)))
         return path + '<' + ', '.join(ty(depth - 1) for _ in range(ctx.rng.randint(1, 3))) + '>'
 
     cases, meta = [], []
